@@ -812,3 +812,32 @@ def span_boundary(cfg):
     cfg.ext_methods["std::chrono::time_point::operator-"] = lambda em, recv, args, n: "(%s - %s)" % (recv, em.expr(args[0]))
     cfg.ctor_ext["std::chrono::time_point"] = lambda em, node, args: (em.expr(args[0]) if args else "0")
     cfg.drop_types = getattr(cfg, "drop_types", set()) | {"std::lock_guard"}
+
+
+# ---------------------------------------------------------------------------------------------
+# baggage codec boundary: std::string as a string builder (xc_strbuild.h), range-for over string_view
+def _sb_ctor(em, node, args):
+    real = [a for a in args if a.get("kind") != "CXXDefaultArgExpr"]
+    if not real:
+        return "xc_sb_new()"
+    s = em._strip_all(real[0])
+    if s.get("kind") == "StringLiteral" and s.get("value") == '""':
+        em.report["std::string(\"\") -> empty string builder"] += 1
+        return "xc_sb_new()"
+    t = em.ctype(real[0]["type"])
+    if t.base == "xc_sb":
+        return em.expr(real[0])
+    raise ExtractionError("std::string construction from %s" % t.text())
+
+
+def strbuild_boundary(cfg):
+    for n in ("std::string", "std::basic_string<char>", "std::basic_string", "std::__cxx11::basic_string"):
+        cfg.type_map[n] = "xc_sb"
+    for n in ("std::basic_string", "std::__cxx11::basic_string"):
+        cfg.ctor_ext[n] = _sb_ctor
+        cfg.ext_methods[n + "::push_back"] = lambda em, recv, args, n: "xc_sb_push(&(%s), %s)" % (recv, em.expr(args[0]))
+    cfg.value_classes |= {"string_view"}
+    if not hasattr(cfg, "seq_handlers"):
+        cfg.seq_handlers = {}
+    cfg.seq_handlers["nostd::string_view"] = lambda em, seq, targs: ("(%s).data_" % seq, "(%s).length_" % seq)
+    cfg.seq_handlers["string_view"] = cfg.seq_handlers["nostd::string_view"]
